@@ -616,6 +616,30 @@ Proof.
   intros ->. unfold not_sentinel in Ns. rewrite val_eqb_refl in Ns. discriminate.
 Qed.
 
+(* the names reported missing are exactly the selected names that are not in the state at all
+   (a name holding only an ordering sentinel is present: it is dropped silently, never reported) *)
+Lemma collect_selected_missing st names k :
+  In k (snd (collect_selected st names)) <-> In k names /\ vals st !! k = None.
+Proof.
+  unfold collect_selected. simpl. rewrite filter_In. split.
+  - intros [Hk H]. split; [exact Hk|]. destruct (vals st !! k); [discriminate | reflexivity].
+  - intros [Hk H]. split; [exact Hk|]. rewrite H. reflexivity.
+Qed.
+
+Lemma select_outputs_spec pol st names :
+  let missing := snd (collect_selected st names) in
+  let values := dupdate [] (fst (collect_selected st names)) in
+  match select_outputs pol st names with
+  | SelOk v => v = values /\ (missing = [] \/ pol = MIgnore)
+  | SelWarn v m => v = values /\ m = missing /\ missing <> [] /\ pol = MWarn
+  | SelError m => m = missing /\ missing <> [] /\ pol = MError
+  end.
+Proof.
+  unfold select_outputs. destruct (collect_selected st names) as [values missing]. simpl.
+  destruct missing as [|k l]; [split; auto|].
+  destruct pol; repeat split; auto; discriminate.
+Qed.
+
 (* ------------------------------------------------------------------ *)
 (* 5. Schedules and runners (C02) *)
 
